@@ -162,7 +162,9 @@ func (c *Channel) Get(ctx context.Context) (value interface{}, err error) {
 			}
 
 			// attempt a read from the channel
+			verifAt("channel.get.checked", c, 0)
 			v, ok := c.source.TryRecv()
+			verifAt("channel.get.tried", c, 0)
 
 			// ok indicates a value is available and it's not closed
 			if ok {
